@@ -55,7 +55,8 @@ func ruleR2(c *Ctx, id string) {
 			cal := P.Callees(call)[0]
 			key := fmt.Sprintf("%s|calls %s", FuncName(fn), FuncName(cal))
 			if inServerPkg(fn) {
-				R.Check(allowed[fn], id, key, P.Pos(call.Pos()), "durability point called only from the commit funnel", "inside the funnel", "a commit outside fstxn.commitWait/CommitFh bypasses PreCommit: pointers would be committed without their bitmap bits")
+				okFn := allowed[fn] || actsFor(P, fn, func(g *ssa.Function) bool { return allowed[g] }, 0)
+				R.Check(okFn, id, key, P.Pos(call.Pos()), "durability point called only from the commit funnel", "inside the funnel", "a commit outside fstxn.commitWait/CommitFh bypasses PreCommit: pointers would be committed without their bitmap bits")
 			} else {
 				R.Pass(id, key, P.Pos(call.Pos()), "durability call site outside the full server", "owned by C17/C18 (simple, kvs)")
 			}
@@ -64,10 +65,11 @@ func ruleR2(c *Ctx, id string) {
 	pre := P.NewAlways(callTo(V.PreCommit))
 	post := P.NewAlways(callTo(V.PostCommit))
 	rel := P.NewAlways(callTo(V.releaseInodes))
-	for _, f := range []*ssa.Function{V.commitWait, V.CommitFh} {
-		if f == nil {
+	for _, f0 := range []*ssa.Function{V.commitWait, V.CommitFh} {
+		if f0 == nil {
 			continue
 		}
+		f := funnelBody(c, f0, dur).Fn
 		calls := P.CallsIn(f, dur)
 		if len(calls) == 0 {
 			R.Fail(id, FuncName(f)+"|durability", P.Pos(f.Pos()), "funnel reaches a durability point", "no call to CommitWait/Flush in the funnel")
@@ -101,9 +103,11 @@ func ruleR2(c *Ctx, id string) {
 	// wait flag plumbing: commitWait passes its parameter; Commit/CommitData
 	// reach it with true; CommitUnstable with false.
 	if V.commitWait != nil {
-		for _, call := range P.CallsIn(V.commitWait, funcIs(V.JrnlCommitWait)) {
-			a := argN(call, 0)
-			_, isParam := a.(*ssa.Parameter)
+		fb := funnelBody(c, V.commitWait, funcIs(V.JrnlCommitWait))
+		for _, call := range P.CallsIn(fb.Fn, funcIs(V.JrnlCommitWait)) {
+			a := fb.S.resolve(argN(call, 0))
+			pa, isParam := a.(*ssa.Parameter)
+			isParam = isParam && pa.Parent() == V.commitWait
 			R.Check(isParam, id, "fstxn.commitWait|wait passed through", P.Pos(call.Pos()), "commitWait(wait) passes its own parameter to jrnl.CommitWait", "argument is the parameter", "the wait flag given to the journal is not the caller's")
 		}
 	}
@@ -849,4 +853,19 @@ func ruleR6(c *Ctx, id string) {
 func sameLoop(a, b ssa.Instruction) bool {
 	// both in a cycle together: b reachable from a and a reachable from b
 	return reachableFrom(a, b) && reachableFrom(b, a)
+}
+
+
+// funnelBody: the function that holds the durability call of funnel f: f
+// itself, or the private helper / closure of f that the body was moved into.
+func funnelBody(c *Ctx, f *ssa.Function, dur func(*ssa.Function) bool) Scope {
+	if f == nil {
+		return Scope{}
+	}
+	for _, sc := range scopesOf(f) {
+		if len(c.P.CallsIn(sc.Fn, dur)) > 0 {
+			return sc
+		}
+	}
+	return Scope{Fn: f, S: Subst{}}
 }
